@@ -47,6 +47,8 @@ SIG = {
     "SIntNegate": "SInt->SInt", "SIntNext": "SInt->SInt", "SIntPrev": "SInt->SInt",
     "SIntEQ": "(SInt,SInt)->Bool", "SIntNE": "(SInt,SInt)->Bool", "SIntLT": "(SInt,SInt)->Bool", "SIntLE": "(SInt,SInt)->Bool",
     "SIntIsZero": "SInt->Bool", "SIntIsPos": "SInt->Bool", "SIntIsNeg": "SInt->Bool",
+    "SIntQuo": "(SInt,SInt)->SInt", "SIntRem": "(SInt,SInt)->SInt", "SIntMod": "(SInt,SInt)->SInt",
+    "SIntShiftUp": "(SInt,SInt)->SInt", "SIntShiftDn": "(SInt,SInt)->SInt",
     "SIntAnd": "(SInt,SInt)->SInt", "SIntOr": "(SInt,SInt)->SInt", "SIntNot": "SInt->SInt",
     "SInt0": "()->SInt", "SInt1": "()->SInt", "SIntMax": "()->SInt", "SIntMin": "()->SInt",
     "BoolTrue": "()->Bool", "BoolFalse": "()->Bool", "BoolNot": "Bool->Bool", "BoolAnd": "(Bool,Bool)->Bool",
@@ -61,6 +63,8 @@ class Gen:
     def __init__(self, rng):
         self.r = rng
         self.used = set()
+        self.slocals = []        # SInt locals in scope
+        self.blocals = []        # Bool locals in scope
 
     def call(self, op, *args):
         self.used.add(op)
@@ -162,12 +166,28 @@ class Gen:
             return self.call(self.r.choice(["BoolEQ", "BoolNE"]), self.r.choice([self.call("BoolTrue"), self.call("BoolFalse")]), q)
         return self.call("BoolNot", self.call("SIntLE", "x", "imp(y)"))
 
+    def divisor(self):
+        """a constant that is neither 0 nor -1 (no trap): 1, 2, 3, 4, 8"""
+        one = self.call("SInt1")
+        two = self.call("SIntPlus", one, one)
+        return self.r.choice([one, two, self.call("SIntNext", two), self.call("SIntTimes", two, two),
+                              self.call("SIntTimes", two, self.call("SIntTimes", two, two))])
+
     def sint(self, d):
         r = self.r.random()
+        if d > 0 and self.r.random() < 0.12:
+            # division, remainder and shifts by a constant (operands of either sign)
+            a = self.sint(d - 1)
+            if self.r.random() < 0.3:
+                a = self.call("SIntNegate", a)
+            if self.r.random() < 0.7:
+                return self.call(self.r.choice(["SIntQuo", "SIntRem", "SIntMod"]), a, self.divisor())
+            return self.call(self.r.choice(["SIntShiftUp", "SIntShiftDn"]), a,
+                             self.r.choice([self.call("SInt0"), self.call("SInt1"), self.divisor()]))
         if d > 0 and self.r.random() < 0.35:
             return self.aimed_sint(d)
         if d <= 0 or r < 0.18:
-            return self.r.choice(["x", "y", "x", "y", self.const(), self.const()])
+            return self.r.choice(["x", "y", "x", "y", self.const(), self.const()] + self.slocals * 2)
         if r < 0.30:
             return "imp(%s)" % self.sint(d - 1)
         if r < 0.40:
@@ -187,7 +207,7 @@ class Gen:
         if d > 0 and self.r.random() < 0.35:
             return self.aimed_bool(d)
         if d <= 0 or r < 0.15:
-            return self.r.choice(["b", "b", self.call("BoolTrue"), self.call("BoolFalse")])
+            return self.r.choice(["b", "b", self.call("BoolTrue"), self.call("BoolFalse")] + self.blocals * 2)
         if r < 0.22:
             return "impb(%s)" % self.boolean(d - 1)
         if r < 0.40:
@@ -213,14 +233,54 @@ class Gen:
         return self.call(self.r.choice(["CharLower", "CharUpper"]), self.char(d - 1))
 
 
+def gen_body(g, rng, ty, depth):
+    """A function body: with probability 1/2 one expression; otherwise a block with local definitions and
+    re-assignments - some initialised by a call with a side effect, some never read afterwards, some
+    assigned twice - followed by the result expression (for the passes that work on definitions: deadvar,
+    dassign, cprop, cse, as well as for the two local ones)."""
+    g.slocals, g.blocals = [], []
+    if rng.random() < 0.5:
+        return g.sint(depth) if ty == "SInt" else g.boolean(depth)
+    lines = []
+    n = rng.choice([1, 2, 3, 4])
+    for i in range(n):
+        k = rng.random()
+        if k < 0.6:
+            e = g.sint(max(1, depth - 1))
+            if rng.random() < 0.4:
+                e = "imp(%s)" % e
+            name = "u%d" % i
+            lines.append("%s: SInt := %s;" % (name, e))
+            if rng.random() < 0.6:
+                g.slocals.append(name)           # visible to later expressions (else: never read)
+        else:
+            e = g.boolean(max(1, depth - 1))
+            if rng.random() < 0.4:
+                e = "impb(%s)" % e
+            name = "v%d" % i
+            lines.append("%s: Bool := %s;" % (name, e))
+            if rng.random() < 0.6:
+                g.blocals.append(name)
+        if rng.random() < 0.3 and (g.slocals or g.blocals):
+            if g.slocals and (not g.blocals or rng.random() < 0.6):
+                v = rng.choice(g.slocals)
+                e = g.sint(max(1, depth - 1))
+                lines.append("%s := %s;" % (v, "imp(%s)" % e if rng.random() < 0.4 else e))
+            else:
+                v = rng.choice(g.blocals)
+                lines.append("%s := %s;" % (v, g.boolean(max(1, depth - 1))))
+    res = g.sint(depth - 1) if ty == "SInt" else g.boolean(depth - 1)
+    body = "{ " + " ".join(lines) + " " + res + " }"
+    g.slocals, g.blocals = [], []
+    return body
+
+
 def gen_program(rng, nfun, depth):
     g = Gen(rng)
     funs = []
     for k in range(nfun):
-        if rng.random() < 0.6:
-            funs.append(("SInt", g.sint(depth)))
-        else:
-            funs.append(("Bool", g.boolean(depth)))
+        ty = "SInt" if rng.random() < 0.6 else "Bool"
+        funs.append((ty, gen_body(g, rng, ty, depth)))
     g.used.update(["SInt0", "SInt1", "SIntNegate", "SIntPlus", "BoolTrue", "BoolFalse", "CharSpace"])
     L = ['#include "aldor"', '#include "aldorio"', "import from Machine, MachineInteger, Boolean;", "import {"]
     L += ["  %s: %s;" % (n, SIG[n]) for n in sorted(g.used)]
